@@ -221,6 +221,39 @@ func (o *Obligation) discharge(w *World, dir string, timeout int, all bool) {
 	os.Remove(mfile)
 }
 
+// retryFailed: solver timeouts are not refutations. Before an obligation is reported, it gets a
+// second attempt with three times the time limit (keeps alarms on the unchanged tree at zero when a
+// query is merely slow; costs time only on trees where something does fail).
+func retryFailed(w *World, obls []*Obligation, dir string, timeout int, all bool, par int) {
+	var again []*Obligation
+	for _, o := range obls {
+		if !o.Smoke && o.Status == "failed" && !strings.Contains(o.Detail, ":sat(") && o.Kind != "binding" && o.Kind != "subset" && o.Goal != "false" {
+			again = append(again, o)
+		}
+	}
+	if len(again) == 0 || len(again) > 40 {
+		return
+	}
+	sem := make(chan struct{}, par)
+	var wg sync.WaitGroup
+	for _, o := range again {
+		wg.Add(1)
+		sem <- struct{}{}
+		go func(o *Obligation) {
+			defer wg.Done()
+			defer func() { <-sem }()
+			first := o.Detail
+			o.discharge(w, dir, timeout*3, all)
+			if o.Status != "discharged" {
+				o.Detail = first + " | retry x3: " + o.Detail
+			} else {
+				o.Detail = "discharged on retry with a longer time limit (first attempt: " + first + ")"
+			}
+		}(o)
+	}
+	wg.Wait()
+}
+
 // dischargeAll runs obligations on a worker pool.
 func dischargeAll(w *World, obls []*Obligation, dir string, timeout int, all bool, par int) {
 	os.MkdirAll(dir, 0o755)
@@ -240,6 +273,7 @@ func dischargeAll(w *World, obls []*Obligation, dir string, timeout int, all boo
 		}(o)
 	}
 	wg.Wait()
+	retryFailed(w, obls, dir, timeout, all, par)
 	// vacuity is a per-function verdict: a function whose contract admits at least one reachable
 	// exit is not vacuous; exits that are unreachable under the contracts (dead error handling)
 	// are recorded but do not fail the check
